@@ -30,6 +30,7 @@ type TemplateDef struct {
 	Mem          string                   `json:"mem,omitempty"`      // memory request of container main, spelled as given ("128Mi" / "134217728")
 	NoLabels     bool                     `json:"noLabels,omitempty"` // the template carries no labels at all
 	Checksum     string                   `json:"checksum,omitempty"` // pod annotation checksum/config: a template that differs from its twin in metadata only ("X^")
+	PastedHash   bool                     `json:"pastedHash,omitempty"` // the template was written from the YAML of a running pod: it carries a (stale) template-hash annotation
 	Labels       map[string]string        `json:"labels,omitempty"`
 	Namespace    string                   `json:"namespace,omitempty"` // spec.template.metadata.namespace (normally empty)
 }
@@ -122,6 +123,12 @@ func (t *TemplateDef) Spec() corev1.PodTemplateSpec {
 	var anns map[string]string
 	if t.Checksum != "" {
 		anns = map[string]string{checksumAnnotation: t.Checksum}
+	}
+	if t.PastedHash {
+		if anns == nil {
+			anns = map[string]string{}
+		}
+		anns[edsv1.MD5ExtendedDaemonSetAnnotationKey] = "0123456789abcdef0123456789abcdef"
 	}
 	return corev1.PodTemplateSpec{
 		ObjectMeta: metav1.ObjectMeta{Labels: lbls, Annotations: anns, Namespace: t.Namespace},
